@@ -54,6 +54,7 @@ OSize == Opt("size", "s", TRUE, "req", TRUE, FALSE, None, <<"[7]">>)            
 OHelp == Opt("help", "h", TRUE, "no", FALSE, TRUE, <<"Display", "this", "help", "message">>, None)
 OConf == Opt("conf", "c", TRUE, "req", FALSE, TRUE, Short, <<"\"app.ini\"">>)
 OVerb == Opt("verbose", "", FALSE, "opt", FALSE, FALSE, None, None)
+OKeepAll == Opt("all", "a", TRUE, "no", FALSE, TRUE, Short, None)
 OThird == Opt("third", "t", TRUE, "no", FALSE, TRUE, Short, None)
 OFast == Opt("fast", "", FALSE, "req", FALSE, FALSE, None, <<"7">>)
 OEmpty == [Opt("empty", "e", TRUE, "opt", FALSE, TRUE, None, None) EXCEPT !.vn = "n"]  \* description "" (not None), 1-letter value name
@@ -96,10 +97,13 @@ Shapes(a, o) ==
                     Sub("baz", 2, <<>>, FALSE, TRUE, FALSE, FALSE, Short, <<>>, <<>>, <<>>)>>,
    twodflt |-> <<Sub("bar", 1, <<>>, FALSE, TRUE, TRUE, FALSE, Short, <<>>, a, o),
                  Sub("baz", 2, <<>>, FALSE, TRUE, TRUE, FALSE, Short, <<>>, <<>>, <<>>)>>,
-   \* three levels: below bar a hidden command (baz, alias bz) and a command named like its parent (bar); baz itself disabled
+   \* three levels: below bar a hidden command (baz, alias bz), a command named like its parent (bar) and one named
+   \* `help`; baz itself disabled
    deep |-> <<[Sub("bar", 1, <<>>, FALSE, TRUE, FALSE, FALSE, Short, <<>>, a, o)
                EXCEPT !.subs = <<Sub("baz", 2, <<"bz">>, TRUE, TRUE, FALSE, FALSE, Short, <<>>, <<>>, <<OThird>>),
-                                 Sub("bar", 1, <<>>, FALSE, TRUE, FALSE, FALSE, None, <<>>, <<>>, <<OFast>>)>>],
+                                 Sub("bar", 1, <<>>, FALSE, TRUE, FALSE, FALSE, None, <<>>, <<>>, <<OFast>>),
+                                 \* a command literally named `help` below the top level
+                                 Sub("help", 3, <<>>, FALSE, TRUE, FALSE, FALSE, Short, <<>>, <<>>, <<OKeepAll>>)>>],
               Sub("baz", 2, <<>>, FALSE, FALSE, FALSE, FALSE, Short, <<>>, <<>>, <<>>)>>]
 
 \* variants of foo itself: [aliases, hidden, description, help]
@@ -115,7 +119,7 @@ Quxes == [none |-> <<>>,
           anon |-> <<Cmd("qux", 5, <<>>, FALSE, TRUE, TRUE, TRUE, Short, <<>>, <<>>, <<OKeep>>, <<>>)>>,
           \* leaf names shared with foo's tree: qux bar (another command than foo bar) and qux qux
           twin |-> <<Cmd("qux", 5, <<>>, FALSE, TRUE, FALSE, FALSE, Short, <<>>, <<>>, <<>>,
-                         <<Sub("bar", 1, <<>>, FALSE, TRUE, FALSE, FALSE, Long, <<>>, <<ADst>>, <<OThird>>),
+                         <<Sub("bar", 1, <<"help">>, FALSE, TRUE, FALSE, FALSE, Long, <<>>, <<ADst>>, <<OThird>>),   \* alias `help`
                            Sub("qux", 5, <<>>, FALSE, TRUE, FALSE, FALSE, None, <<>>, <<>>, <<OFast>>)>>)>>]
 
 MkCfg(shape, qux, fa, fo, sa, so, gl, foo) ==
